@@ -77,7 +77,7 @@ Definition decode (s : bytes) : N * nat :=
     else if N.ltb b0 194 then (RuneError, 1)
     else if N.ltb b0 224 then
       match t with
-      | b1 :: _ => if cont b1 then ((N.modulo b0 32) * 64 + N.modulo b1 64, 2)%N else (RuneError, 1)
+      | b1 :: _ => if cont b1 then (((N.modulo b0 32) * 64 + N.modulo b1 64)%N, 2) else (RuneError, 1)
       | _ => (RuneError, 1)
       end
     else if N.ltb b0 240 then
@@ -86,7 +86,7 @@ Definition decode (s : bytes) : N * nat :=
       match t with
       | b1 :: b2 :: _ =>
           if in_range lo hi b1 && cont b2
-          then (((N.modulo b0 16) * 64 + N.modulo b1 64) * 64 + N.modulo b2 64, 3)%N
+          then ((((N.modulo b0 16) * 64 + N.modulo b1 64) * 64 + N.modulo b2 64)%N, 3)
           else (RuneError, 1)
       | _ => (RuneError, 1)
       end
@@ -96,8 +96,8 @@ Definition decode (s : bytes) : N * nat :=
       match t with
       | b1 :: b2 :: b3 :: _ =>
           if in_range lo hi b1 && cont b2 && cont b3
-          then ((((N.modulo b0 8) * 64 + N.modulo b1 64) * 64 + N.modulo b2 64) * 64
-                + N.modulo b3 64, 4)%N
+          then (((((N.modulo b0 8) * 64 + N.modulo b1 64) * 64 + N.modulo b2 64) * 64
+                + N.modulo b3 64)%N, 4)
           else (RuneError, 1)
       | _ => (RuneError, 1)
       end
@@ -179,9 +179,14 @@ Definition strconv_unquote_char (s : bytes) (quote : N) : option (N * bytes) :=
 (* seqql.go: unquoteChar — `\*` is an asterisk, a bare `*` is the wildcard rune *)
 Definition unquote_char (s : bytes) (quote : N) : option (N * bytes) :=
   match s with
-  | 92%N :: 42%N :: t => Some (42%N, t)
-  | 42%N :: t => Some (wildcardRune, t)
-  | _ => strconv_unquote_char s quote
+  | c :: t =>
+    if N.eqb c 42 then Some (wildcardRune, t)
+    else match t with
+         | c1 :: t1 => if N.eqb c 92 && N.eqb c1 42 then Some (42%N, t1)
+                       else strconv_unquote_char s quote
+         | [] => strconv_unquote_char s quote
+         end
+  | [] => strconv_unquote_char s quote
   end.
 
 Definition need_unquote (s : bytes) : bool := contains_byte 92 s || contains_byte 42 s.
@@ -336,9 +341,18 @@ Section Lex.
   Fixpoint fold_norm (s : bytes) : bytes :=
     match s with
     | [] => []
-    | 197%N :: 191%N :: t => 115%N :: fold_norm t
-    | 226%N :: 132%N :: 170%N :: t => 107%N :: fold_norm t
-    | c :: t => (if in_range 65 90 c then (c + 32)%N else c) :: fold_norm t
+    | c :: t =>
+      let dflt := (if in_range 65 90 c then (c + 32)%N else c) :: fold_norm t in
+      match t with
+      | c1 :: t1 =>
+        if N.eqb c 197 && N.eqb c1 191 then 115%N :: fold_norm t1
+        else match t1 with
+             | c2 :: t2 => if N.eqb c 226 && N.eqb c1 132 && N.eqb c2 170
+                           then 107%N :: fold_norm t2 else dflt
+             | [] => dflt
+             end
+      | [] => dflt
+      end
     end.
 
   Definition end_tok : ltok := mkTok [] false false false.
@@ -389,6 +403,212 @@ Section Lex.
     let c := cur ts in
     if is_kw [] c then RErr
     else if negb (is_composite c) then RErr
-    else join_composite (tl ts) (t_txt c) |> ROk
-  where "x |> f" := (f x).
+    else ROk (join_composite (tl ts) (t_txt c)).
+
+  (* strings.ReplaceAll(s, string(wildcardRune), "*") *)
+  Fixpoint replace_wild (s : bytes) : bytes :=
+    match s with
+    | [] => []
+    | c :: t =>
+      match t with
+      | c1 :: c2 :: t2 => if N.eqb c 238 && N.eqb c1 128 && N.eqb c2 128
+                          then 42%N :: replace_wild t2 else c :: replace_wild t
+      | _ => c :: replace_wild t
+      end
+    end.
+
+  (* len(terms) of parseSeqQLKeyword(token): runs of non-wildcard runes and wildcard runes.
+     have = "b is non-empty" *)
+  Fixpoint kw_terms_loop (fuel : nat) (s : bytes) (have : bool) (n : nat) : R nat :=
+    match fuel with
+    | 0 => RFuel
+    | S f =>
+      match s with
+      | [] => ROk (if have then S n else n)
+      | _ => let '(r, sz) := decode s in
+             if N.eqb r wildcardRune
+             then kw_terms_loop f (skipn sz s) false (S (if have then S n else n))
+             else kw_terms_loop f (skipn sz s) true n
+      end
+    end.
+  Definition kw_terms (s : bytes) : R nat :=
+    match s with [] => ROk 1 | _ => kw_terms_loop (S (length s)) s false 0 end.
+
+  (* len(tokens) of parseSeqQLText(token): term = "term.Data non-empty", curt = "current.Terms
+     non-empty", n = len(tokens) *)
+  Fixpoint text_lits_loop (fuel : nat) (s : bytes) (term curt : bool) (n : nat) : R nat :=
+    match fuel with
+    | 0 => RFuel
+    | S f =>
+      match s with
+      | [] => let curt := curt || term in
+              let n := if curt then S n else n in
+              ROk (if Nat.eqb n 0 then 1 else n)
+      | _ => let '(r, sz) := decode s in
+             let s' := skipn sz s in
+             if is_letter r || is_number r || N.eqb r 95 || N.eqb r 42
+             then text_lits_loop f s' true curt n
+             else
+               let curt := curt || term in
+               if N.eqb r wildcardRune then text_lits_loop f s' false true n
+               else if curt then text_lits_loop f s' false false (S n)
+                    else text_lits_loop f s' false false n
+      end
+    end.
+  Definition text_lits (s : bytes) : R nat :=
+    match s with [] => ROk 1 | _ => text_lits_loop (S (length s)) s false false 0 end.
+
+  (* ---------------------------------------------------------------- field filter *)
+  (* indexType(mapping, field): 0 noop (not indexed), 1 keyword or path, 2 text,
+     3 any other type (exists, object, tags, nested) *)
+  Variable ftype : bytes -> N.
+
+  (* parseFulltextSearchFilter: one token of the token-level alphabet *)
+  Definition fulltext (t : N) (ts : list ltok) : R (tok * list ltok) :=
+    do st <- parse_composite ts;
+    let '(value, ts') := st in
+    if N.eqb t 1 then
+      do _ <- kw_terms value; ROk (TAtom 0, ts')
+    else if N.eqb t 2 then
+      do k <- text_lits value; ROk (TText (repeat 0 k), ts')
+    else RErr.
+
+  (* for lex.IsKeyword(",") { Next; parseFulltextSearchFilter; root = OR(root, it) } *)
+  Fixpoint in_loop (fuel : nat) (t : N) (ts : list ltok) (acc : list tok) : R (list tok * list ltok) :=
+    match fuel with
+    | 0 => RFuel
+    | S f =>
+      if is_kw kw_comma (cur ts) then
+        do st <- fulltext t (tl ts);
+        let '(e, ts') := st in
+        in_loop f t ts' (acc ++ [TOr; e])
+      else ROk (acc, ts)
+    end.
+
+  (* parseFilterIn (after `in` was consumed): the OR of the members, written at token level as
+     the parenthesised disjunction  ( m1 or m2 or ... )  *)
+  Definition filter_in (t : N) (ts : list ltok) : R (list tok * list ltok) :=
+    if negb (is_kw kw_lp (cur ts)) then RErr else
+    let ts1 := tl ts in
+    if is_kw kw_rp (cur ts1) then RErr else
+    do st <- fulltext t ts1;
+    let '(e, ts2) := st in
+    do st2 <- in_loop (S (length ts2)) t ts2 [e];
+    let '(es, ts3) := st2 in
+    if negb (is_kw kw_rp (cur ts3)) then RErr
+    else ROk (TLP :: es ++ [TRP], tl ts3).
+
+  (* parseRangeTerm *)
+  Definition range_term (ts : list ltok) : R (list ltok) :=
+    do st <- parse_composite ts;
+    let '(value, ts') := st in
+    do k <- kw_terms value;
+    if Nat.leb k 1 then ROk ts' else RErr.
+
+  (* parseSeqQLTokenRange: one leaf *)
+  Definition token_range (ts : list ltok) : R (list ltok) :=
+    if negb (is_kws [kw_lp; kw_lb] (cur ts)) then RErr else
+    do ts1 <- range_term (tl ts);
+    if negb (is_kws [kw_comma; kw_to] (cur ts1)) then RErr else
+    do ts2 <- range_term (tl ts1);
+    if negb (is_kws [kw_rp; kw_rb] (cur ts2)) then RErr else
+    ROk (tl ts2).
+
+  (* parseSeqQLFieldFilter *)
+  Definition field_filter (ts : list ltok) : R (list tok * list ltok) :=
+    do st <- parse_composite ts;
+    let '(name0, ts1) := st in
+    let name := replace_wild name0 in
+    match name with
+    | [] => RErr
+    | _ =>
+      let t := ftype name in
+      if N.eqb t 0 then RErr
+      else if negb (is_kw kw_colon (cur ts1)) then RErr
+      else
+        let ts2 := tl ts1 in
+        if is_kw [] (cur ts2) then RErr
+        else if is_kws [kw_lb; kw_lp] (cur ts2) then
+          do ts3 <- token_range ts2; ROk ([TAtom 0], ts3)
+        else if is_kw kw_in (cur ts2) then filter_in t (tl ts2)
+        else do st2 <- fulltext t ts2; let '(e, ts3) := st2 in ROk ([e], ts3)
+    end.
+
+  (* ---------------------------------------------------------------- pipes *)
+  (* parseFieldList: for !IsKeywords("|", "") { composite; if "," { Next; trailing = true } } *)
+  Fixpoint field_list (fuel : nat) (ts : list ltok) (nfields : nat) (trailing : bool)
+    : R (list ltok) :=
+    match fuel with
+    | 0 => RFuel
+    | S f =>
+      if is_kws [kw_pipe; []] (cur ts) then
+        if trailing then RErr else if Nat.eqb nfields 0 then RErr else ROk ts
+      else
+        do st <- parse_composite ts;
+        let '(_, ts1) := st in
+        if is_kw kw_comma (cur ts1) then field_list f (tl ts1) (S nfields) true
+        else field_list f ts1 (S nfields) false
+    end.
+
+  (* parsePipes: for !IsEnd { expect "|"; Next; "fields" [except] list; at most one fields pipe } *)
+  Fixpoint pipes (fuel : nat) (ts : list ltok) (nfilters : nat) : R (list ltok) :=
+    match fuel with
+    | 0 => RFuel
+    | S f =>
+      match ts with
+      | [] => ROk []
+      | _ =>
+        if negb (is_kw kw_pipe (cur ts)) then RErr else
+        let ts1 := tl ts in
+        if is_kw kw_fields (cur ts1) then
+          let ts2 := tl ts1 in
+          let ts3 := if is_kw kw_except (cur ts2) then tl ts2 else ts2 in
+          do ts4 <- field_list (S (length ts3)) ts3 0 false;
+          if Nat.ltb 1 (S nfilters) then RErr else pipes f ts4 (S nfilters)
+        else RErr
+      end
+    end.
+
+  (* ---------------------------------------------------------------- glue *)
+  (* Walks the lexer tokens the way parseSeqQLFilter / parseSeqQLSubexpr do (operand position /
+     operator position, parenthesis depth) and produces the token-level alphabet of Model.v:
+     every field filter becomes TAtom / TText / a parenthesised disjunction; a range is one TAtom;
+     `*` alone at depth 0 is one TAtom; a pipe section ends the token list (ParseSeqQL's final
+     IsEnd check is the RPanic below). operand = true: a sub-expression is expected. *)
+  Fixpoint glue (fuel : nat) (ts : list ltok) (depth : nat) (operand : bool) : R (list tok) :=
+    match fuel with
+    | 0 => RFuel
+    | S f =>
+      match ts with
+      | [] => ROk []
+      | t :: r =>
+        if operand then
+          if is_kw wildcard_bytes t && Nat.eqb depth 0 then
+            do l <- glue f r depth false; ROk (TAtom 0 :: l)
+          else if is_kw kw_lp t then do l <- glue f r (S depth) true; ROk (TLP :: l)
+          else if is_kw kw_not t then do l <- glue f r depth true; ROk (TNot :: l)
+          else
+            do st <- field_filter ts;
+            let '(toks, ts') := st in
+            do l <- glue f ts' depth false; ROk (toks ++ l)
+        else
+          if is_kw kw_and t then do l <- glue f r depth true; ROk (TAnd :: l)
+          else if is_kw kw_or t then do l <- glue f r depth true; ROk (TOr :: l)
+          else if is_kw kw_rp t then do l <- glue f r (pred depth) false; ROk (TRP :: l)
+          else if is_kw kw_pipe t then
+            do rest <- pipes (S (length ts)) ts 0;
+            match rest with [] => ROk [] | _ => RPanic end
+          else RErr
+      end
+    end.
+
+  (* ParseSeqQL on raw bytes: lexer, glue, token-level parser of Model.v *)
+  Definition seqql_parse (q : bytes) : R ast :=
+    do lts <- lex q;
+    do ts <- glue (S (length lts)) lts 0 true;
+    match parse ts with
+    | Ok a => ROk a
+    | Err => RErr
+    | OutOfFuel => RFuel
+    end.
 End Lex.
